@@ -250,6 +250,19 @@ def apply(I, st, inst, node, nidx, callee, args, term, dty, line):
                 return I.load(st, p, dty)
             return Tree(p, dty)
         return I.wrap(("read", h(args[0])), dty)
+    if path in ("core::mem::replace", "core::mem::take"):
+        p_ = ref_path(args[0])
+        if p_ is not None:
+            old = I.load(st, p_, dty)
+            newv = args[1] if len(args) > 1 else I.wrap(("default", ty_str(dty)), dty)
+            if name == "take" and is_int_ty(dty):
+                newv = Poly()
+            if isinstance(newv, Tree):
+                I.copy_tree(st, newv.path, p_)
+            else:
+                I.store(st, p_, newv)
+                I.note_store(st, node, nidx, I.canon(st, p_) if p_[0][0] == "L" else p_, dty, newv, line)
+            return old
     if path == "core::mem::forget":
         a = args[0]
         E("FORGET", what=h(a))
